@@ -310,6 +310,16 @@ def run_oracles(si, sm, viol, cover):
                     viol("C08", None, "finish_cycle ended in phase %d" % cp1, k)
                 if how in ("cyd", "fc") and cp0 == 3 and cp1 in (1, 2):
                     viol("C08", None, "%s passed from Sweeping into a new marking phase in one call" % how, k)
+                if how in ("cyd", "fc") and cp0 == 3 and cp1 == 3:
+                    # still Sweeping: it must be the SAME sweep. Within one sweep the per-cycle counters allocated,
+                    # marked and traced do not change and dropped, freed, remembered only grow; finish_cycle resets all
+                    # of them and a marking phase changes marked/traced, so any other change proves a hidden
+                    # Sweeping -> Sleeping -> Marking -> Sweeping passage inside the call.
+                    m0 = [int(x) for x in pre["m"].split(",")]
+                    m1 = [int(x) for x in post["m"].split(",")]
+                    if m1[1] != m0[1] or m1[4] != m0[4] or m1[5] != m0[5] or m1[2] < m0[2] or m1[3] < m0[3] or m1[6] < m0[6]:
+                        viol("C08", None, "%s passed from Sweeping through a whole new marking phase into the next sweep in one call "
+                                          "(per-cycle counters %s -> %s)" % (how, pre["m"], post["m"]), k)
                 if how == "cd" and dp1:
                     viol("C09", None, "collect_debt returned with positive allocation debt", k)
                 if how == "cyd" and dp1 and cp1 != 0:
